@@ -33,7 +33,18 @@ Definition nonempty {A} (l : list A) : bool := match l with [] => false | _ => t
 
 Definition read_ts_ok (s : sys) (rts : N) : bool := s_managed s || (rts =? s_next s - 1).
 
-(* codes: 1 observation differs, 2 unknown producer/txn, 7 split keys outside what Ranges guarantees *)
+(* the hypotheses of the Stream / Backup theorems, checked on every view a run reads:
+   strictly increasing internal keys, no empty user key, versions >= 1 *)
+Fixpoint view_okb (m : src) : bool :=
+  match m with
+  | [] => true
+  | a :: r => (match e_key a with [] => false | _ => true end) && (0 <? e_ver a)
+              && (match r with b :: _ => match ent_cmp a b with Lt => true | _ => false end | [] => true end)
+              && view_okb r
+  end.
+
+(* codes: 1 observation differs, 2 unknown producer/txn, 7 split keys outside what Ranges
+   guarantees, 8 the merged view is not a well-formed view *)
 Definition xstep (x : xsys) (o : xop) : result * list (N * N) :=
   let s := x_sys x in
   match o with
@@ -41,6 +52,7 @@ Definition xstep (x : xsys) (o : xop) : result * list (N * N) :=
   | Run cfg rts splits outs ret =>
       if negb (read_ts_ok s rts) then (Bad 1, x_prod x)
       else if negb (splits_ok (r_prefix cfg) splits) then (Bad 7, x_prod x)
+      else if negb (view_okb (merged (s_db s))) then (Bad 8, x_prod x)
       else
         let res := filter nonempty (map (cfg_range cfg (s_now s) rts (merged (s_db s))) (ranges splits)) in
         if list_eqb entries_eqb res outs && (max_ver (concat res) =? ret) then (Ok s, x_prod x)
